@@ -224,6 +224,22 @@ CHECKS = {
              "Known findings (shared root cause with C10): an emptied list is not cleared in Tor, an edited comma list is sent as repeated keys.",
         technique="Lean 4: invariants (ownership of list objects, declared shapes) by induction over all operation sequences + view-tracking theorem over all event sequences; differential correspondence with a three-way oracle",
         ref='§4 C11'),
+    'C19': dict(
+        text=("C19_once (for EVERY order of the process's output, its exit, the timeout, the control connection's steps and callers' requests, no "
+              "when_connected() result — hence no launch result — is delivered twice; invariant by induction), C19_success_needs_100 (a success is preceded by "
+              "a BOOTSTRAP PROGRESS=100 event on a connection whose protocol bootstrap was acknowledged and whose STATUS_CLIENT subscription exists), "
+              "C19_no_success_after_failure (once timeout or exit has failed the launch, no later input — not even a late 100 % — nor a later caller sees "
+              "success), C19_timeout (TERM, or closing the pipes when the process is gone, and failure), C19_exit (failure, and exactly the listed "
+              "directories removed), C19_only_listed_dirs_removed (over any run nothing else is ever removed; a caller-supplied directory is never on the "
+              "list), C19_chunking (however the control-listener line is cut into pieces, exactly one connection attempt is made, at the piece that "
+              "completes it), C19_ownership_sequence (subscription, TAKEOWNERSHIP, RESETCONF in this order, each after the previous acknowledgement). "
+              "Correspondence: the real launch() on a fake reactor and process transport, a real temporary directory, the fake Tor behind "
+              "connection_creator, every step acknowledged or rejected."),
+        note=NOTE_COMMON + "PARTIAL: no real process, signal delivery or reactor shutdown trigger; the fake transport records signalProcess/loseConnection. "
+             "The model includes launch()'s own attachment of the configuration (one command at a time per connection, as C01 proves of the real protocol). "
+             "H: the configuration attachment is not rejected.",
+        technique="Lean 4: invariant induction over all input orders of the process-protocol model (at-most-once, success-needs-100, failure is final, directory rule, chunk independence); differential correspondence",
+        ref='§4 C19'),
     'C20': dict(
         text=("C20_refines: for EVERY history of ADDRMAP lines (all token forms: local-time field, EXPIRES=, NEVER, <error>, extra flags) and clock "
               "advances, with any expiry offset past or future, the model's map equals the spec's (Tor's latest mapping per name under the clock: "
